@@ -22,7 +22,7 @@ type c28 struct {
 	writeNodeInfo, writeLoop, flushReadyDrops, dial     types.Object
 	eventIDSeq, eventIDEpoch, makeEventID               types.Object
 	fMu, fEpoch, fSeqCounter, fRanges, fQueue, fEnabled *types.Var
-	fEnvID, fCount                                      *types.Var
+	fEnvID, fCount, fFirstID                            *types.Var
 
 	funcs    []*ssa.Function
 	requires map[*ssa.Function]string // function -> reason (first unheld guarded access)
@@ -43,6 +43,7 @@ func checkC28(c *Ctx) (string, []string) {
 	k.fMu, k.fEpoch, k.fSeqCounter = c.Field(telPkg, "sequencer.mu"), c.Field(telPkg, "sequencer.currentEpoch"), c.Field(telPkg, "sequencer.seqCounter")
 	k.fRanges, k.fQueue, k.fEnabled = c.Field(telPkg, "dropState.ranges"), c.Field(telPkg, "tcpClient.queue"), c.Field(telPkg, "tcpClient.enabledFlag")
 	k.fEnvID, k.fCount = c.Field(telPkg, "envelope.id"), c.Field(telPkg, "dropRange.count")
+	k.fFirstID = c.Field(telPkg, "dropRange.firstID")
 	if len(c.fatal) > 0 {
 		return "", nil
 	}
@@ -538,6 +539,22 @@ func (k *c28) ruleProducer() {
 	c.Rule("C28.producer-section", "in every function that calls nextID: the call is under the lock; every path from it to the release of the lock passes one non-blocking select that sends, on tcpClient.queue, an envelope whose id field is that ID; on the select's default outcome every path passes drops.record(thatID, ·) before the release and on the sent outcome none does; no second nextID in the section", 3)
 	c.Rule("C28.followup-parent", "a function that takes a parent ID and allocates a child ID calls validateParentLocked(parent) and allocates only on its true edge, in the same critical section", 1)
 	producers := 0
+	// producer helpers: functions that allocate an ID and rely on their callers for the lock ("…Locked" helpers);
+	// the guarded-state rule already demands that every call of such a function is made with the lock held
+	helperOf := map[*ssa.Function]bool{}
+	for _, f := range k.funcs {
+		if _, req := k.requires[f]; req && f.Object() != k.nextID && len(callsIn(f, k.nextID)) > 0 {
+			helperOf[f] = true
+		}
+	}
+	isHelperCall := func(in ssa.Instruction) bool {
+		ci, ok := in.(ssa.CallInstruction)
+		if !ok {
+			return false
+		}
+		g := calleeFunc(ci)
+		return g != nil && helperOf[g]
+	}
 	for _, f := range k.funcs {
 		calls := callsIn(f, k.nextID)
 		if len(calls) == 0 || f.Object() == k.nextID {
@@ -549,7 +566,7 @@ func (k *c28) ruleProducer() {
 		for _, call := range calls {
 			key := funcKey(f)
 			idVal, _ := call.(ssa.Value)
-			if !(st[call].must) || req {
+			if !(st[call].must) && !req {
 				c.Bad("C28.producer-section", key+" · nextID under lock", call.Pos(), "nextID is not called under a lock taken in this function")
 				continue
 			}
@@ -562,12 +579,55 @@ func (k *c28) ruleProducer() {
 				ok = false
 			}
 			sels := make([]int, nsel)
-			if ok {
+			if ok && !req {
 				c.OK("C28.producer-section", key, call.Pos(), "nextID under lock; every path sends envelope{id} non-blockingly or records the drop for that id, exactly once (%d select)", len(sels))
+			} else if ok {
+				c.OK("C28.producer-section", key, call.Pos(), "lock held by every caller (guarded-state); from nextID to the return every path sends envelope{id} non-blockingly or records the drop for that id, exactly once (%d select)", len(sels))
 			}
 			// follow-up parent validation
-			k.checkFollowup(f, call)
+			if !req {
+				k.checkFollowup(f, call)
+			}
 		}
+	}
+	// callers of a producer helper: the call is the allocation site of their critical section
+	for _, g := range k.funcs {
+		if helperOf[g] {
+			continue
+		}
+		stg := k.states[g]
+		allInstrs(g, func(in ssa.Instruction) {
+			if !isHelperCall(in) {
+				return
+			}
+			ci := in.(ssa.CallInstruction)
+			key := funcKey(g) + " · via " + calleeFunc(ci).Name()
+			if !stg[in].must {
+				c.Bad("C28.producer-section", key, in.Pos(), "the ID-allocating helper %s is called without the sequencer lock taken in this function", calleeFunc(ci).Name())
+				return
+			}
+			isRelease := func(x ssa.Instruction) bool {
+				if _, isDefer := x.(*ssa.Defer); isDefer {
+					return false
+				}
+				return k.isRelease(x) || isExit(x)
+			}
+			again := func(x ssa.Instruction) bool {
+				if x == in {
+					return false
+				}
+				if _, isSel := x.(*ssa.Select); isSel {
+					return true
+				}
+				return isCallTo(x, k.nextID) || isCallTo(x, k.record) || isHelperCall(x)
+			}
+			if hit, found := findPath(pathQuery{start: in, target: again, blocker: isRelease}); found {
+				c.Bad("C28.producer-section", key+" · single id", hit.Pos(), "after the helper allocated and enqueued an ID, the same critical section allocates, sends or records again")
+				return
+			}
+			c.OK("C28.producer-section", key, in.Pos(), "helper called under the lock taken here; nothing else is allocated, sent or recorded before the release")
+			k.checkFollowup(g, ci)
+		})
 	}
 	c.extra["producer_functions"] = producers
 }
@@ -875,15 +935,29 @@ func (k *c28) ruleWriter() {
 		// writeDropped argument provenance
 		for _, wd := range callsIn(f, k.writeDropped) {
 			args := wd.Common().Args
-			rng := resolveLocal(args[len(args)-1])
-			ok := false
-			if ex, isEx := rng.(*ssa.Extract); isEx && ex.Index == 0 {
-				if call, isCall := ex.Tuple.(*ssa.Call); isCall && isCallTo(call, k.peekFirst) {
-					ok = true
-				}
-			}
+			ok := k.isPeeked(f, wd, args[len(args)-1], 0)
 			c.Check(ok, "C28.claim-before-write", funcKey(f)+" · writeDropped(arg)", wd.Pos(), "range written is the value returned by peekFirst",
 				"range handed to writeDropped is not the value peeked under the lock")
+			// the range is written only at its own position: eventIDSeq(range.firstID) == the expected wire ID
+			isCounter := func(x ssa.Value) bool {
+				u, isU := stripConv(x).(*ssa.UnOp)
+				if !isU || u.Op != token.MUL {
+					return false
+				}
+				p, isP := u.X.(*ssa.Parameter)
+				if isP {
+					pt, isPtr := p.Type().(*types.Pointer)
+					if !isPtr {
+						return false
+					}
+					b, isB := pt.Elem().Underlying().(*types.Basic)
+					return isB && b.Kind() == types.Uint64
+				}
+				_, isA := u.X.(*ssa.Alloc)
+				return isA
+			}
+			c.Check(k.dropAligned(f, wd, args[len(args)-1], isCounter, 0), "C28.wire-counter", funcKey(f)+" · writeDropped position", wd.Pos(),
+				"a drop range is written only when eventIDSeq(range.firstID) equals the expected wire ID", "a drop range can be written although its first ID is not the expected wire ID (the receiver's implicit numbering shifts)")
 		}
 	}
 	// wire counter cells
@@ -970,9 +1044,9 @@ func (k *c28) ruleWriter() {
 		// region analysis: between consecutive boundaries (peek/flush), a successful
 		// writeEvent needs exactly one +1, a successful writeDropped exactly one
 		// +count, and no write means no increment. Error paths are exempt.
-		var boundary types.Object = k.peekFirst
+		boundary := func(in ssa.Instruction) bool { return k.peeks(in, 0) }
 		if f == wl {
-			boundary = k.flushReadyDrops
+			boundary = func(in ssa.Instruction) bool { return isCallTo(in, k.flushReadyDrops) }
 		}
 		for _, p := range wireRegions(f, boundary, k.writeEvent, k.writeDropped, inc1, incC) {
 			c.Bad("C28.wire-counter", funcKey(f)+" · "+p.what, p.pos, "%s", p.msg)
@@ -1004,6 +1078,148 @@ func (k *c28) ruleWriter() {
 		c.Check(guardedBy(wl, we, pass), "C28.wire-counter", "writeLoop · writeEvent guard", we.Pos(),
 			"event written only when eventIDSeq(env.id)==expected wire ID", "event write not guarded by eventIDSeq(env.id)==expectedWireID")
 	}
+}
+
+// dropAligned: the use at `at` of the peeked range v lies behind the test eventIDSeq(v.firstID) == X with X
+// accepted by isCounter — in f itself, or inside the (range, ok) helper that hands the range out, whose X is then a
+// parameter that receives a counter value at the call.
+func (k *c28) dropAligned(f *ssa.Function, at ssa.Instruction, v ssa.Value, isCounter func(ssa.Value) bool, depth int) bool {
+	rng := resolveLocal(v)
+	ex, isEx := rng.(*ssa.Extract)
+	if !isEx || ex.Index != 0 {
+		return false
+	}
+	call, isCall := ex.Tuple.(*ssa.Call)
+	if !isCall {
+		return false
+	}
+	if isCallTo(call, k.peekFirst) {
+		sameRange := func(base ssa.Value) bool {
+			if base == rng || resolveLocal(base) == rng {
+				return true
+			}
+			if a, isA := base.(*ssa.Alloc); isA {
+				if sv := singleStore(a); sv != nil && stripConv(sv) == rng {
+					return true
+				}
+			}
+			return false
+		}
+		pass := condEdges(f, func(cv ssa.Value) (bool, bool) {
+			bo, ok := cv.(*ssa.BinOp)
+			if !ok || (bo.Op != token.EQL && bo.Op != token.NEQ) {
+				return false, false
+			}
+			m := func(a, b ssa.Value) bool {
+				sc, ok := stripConv(a).(*ssa.Call)
+				if !ok || !isCallTo(sc, k.eventIDSeq) {
+					return false
+				}
+				base, ok := fieldOf(sc.Call.Args[0], k.fFirstID)
+				return ok && sameRange(base) && isCounter(b)
+			}
+			if m(bo.X, bo.Y) || m(bo.Y, bo.X) {
+				return true, bo.Op == token.EQL
+			}
+			return false, false
+		})
+		return guardedBy(f, at, pass)
+	}
+	g := calleeFunc(call)
+	if g == nil || depth > 2 || len(g.Blocks) == 0 || g.Pkg != f.Pkg {
+		return false
+	}
+	used := map[int]bool{}
+	rets, good := 0, true
+	allInstrs(g, func(in ssa.Instruction) {
+		r, isR := in.(*ssa.Return)
+		if !isR {
+			return
+		}
+		res := retResults(r)
+		if len(res) != 2 {
+			return
+		}
+		if kc, isC := res[1].(*ssa.Const); isC && kc.Value != nil && kc.Value.String() == "false" {
+			return
+		}
+		rets++
+		isParam := func(x ssa.Value) bool {
+			p, ok := stripConv(x).(*ssa.Parameter)
+			if !ok {
+				return false
+			}
+			for i, q := range g.Params {
+				if q == p {
+					used[i] = true
+				}
+			}
+			return true
+		}
+		if !k.dropAligned(g, r, res[0], isParam, depth+1) {
+			good = false
+		}
+	})
+	if rets == 0 || !good || len(used) != 1 {
+		return false
+	}
+	for i := range used {
+		if i >= len(call.Call.Args) || !isCounter(call.Call.Args[i]) {
+			return false
+		}
+	}
+	return true
+}
+
+// isPeeked: v (used at instruction `at` of f) is the range returned by peekFirst, directly or as result #0 of a
+// package helper returning (range, ok) whose every return that may report ok hands back the range it peeked
+// itself; in the helper form the use must lie behind the helper's ok result.
+func (k *c28) isPeeked(f *ssa.Function, at ssa.Instruction, v ssa.Value, depth int) bool {
+	rng := resolveLocal(v)
+	ex, isEx := rng.(*ssa.Extract)
+	if !isEx || ex.Index != 0 {
+		return false
+	}
+	call, isCall := ex.Tuple.(*ssa.Call)
+	if !isCall {
+		return false
+	}
+	if isCallTo(call, k.peekFirst) {
+		return true
+	}
+	g := calleeFunc(call)
+	if g == nil || depth > 2 || len(g.Blocks) == 0 || g.Pkg != f.Pkg || g.Signature.Results().Len() != 2 || !isBoolT(g.Signature.Results().At(1).Type()) {
+		return false
+	}
+	rets, good := 0, true
+	allInstrs(g, func(in ssa.Instruction) {
+		r, isR := in.(*ssa.Return)
+		if !isR {
+			return
+		}
+		res := retResults(r) // results as stored before the deferred calls run
+		if len(res) != 2 {
+			return
+		}
+		if kc, isC := res[1].(*ssa.Const); isC && kc.Value != nil && kc.Value.String() == "false" {
+			return
+		}
+		rets++
+		if !k.isPeeked(g, nil, res[0], depth+1) {
+			good = false
+		}
+	})
+	if rets == 0 || !good {
+		return false
+	}
+	if at == nil {
+		return true
+	}
+	okEdge := condEdges(f, func(cv ssa.Value) (bool, bool) {
+		e2, isE := cv.(*ssa.Extract)
+		return isE && e2.Tuple == ssa.Value(call) && e2.Index == 1, true
+	})
+	return guardedBy(f, at, okEdge)
 }
 
 func isLoadOf(v ssa.Value, cell ssa.Value) bool {
@@ -1239,7 +1455,29 @@ func (k *c28) ruleSequencerShapes() {
 // wireRegions explores every CFG path between consecutive boundary calls
 // with a small product state and reports regions whose increment count does
 // not match the wire write performed.
-func wireRegions(f *ssa.Function, boundary, writeEvent, writeDropped types.Object, inc1, incC map[ssa.Instruction]bool) []secProblem {
+// peeks: the instruction samples the head of the drop list (peekFirst, or a package function that calls it).
+func (k *c28) peeks(in ssa.Instruction, depth int) bool {
+	if isCallTo(in, k.peekFirst) {
+		return true
+	}
+	ci, ok := in.(ssa.CallInstruction)
+	if !ok || depth > 2 {
+		return false
+	}
+	g := calleeFunc(ci)
+	if g == nil || len(g.Blocks) == 0 || g.Pkg == nil || g.Pkg.Pkg.Path() != modPath+"/"+telPkg {
+		return false
+	}
+	found := false
+	allInstrs(g, func(x ssa.Instruction) {
+		if k.peeks(x, depth+1) {
+			found = true
+		}
+	})
+	return found
+}
+
+func wireRegions(f *ssa.Function, boundary func(ssa.Instruction) bool, writeEvent, writeDropped types.Object, inc1, incC map[ssa.Instruction]bool) []secProblem {
 	type st struct {
 		b          *ssa.BasicBlock
 		i          int
@@ -1309,8 +1547,8 @@ func wireRegions(f *ssa.Function, boundary, writeEvent, writeDropped types.Objec
 		for i := s.i; i < len(s.b.Instrs) && !stop; i++ {
 			in := s.b.Instrs[i]
 			switch {
-			case isCallTo(in, boundary):
-				check(cur, in.Pos(), "the next "+boundary.Name())
+			case boundary(in):
+				check(cur, in.Pos(), "the next look at the drop list head")
 				work = append(work, st{b: s.b, i: i + 1})
 				stop = true
 			case inc1[in]:
